@@ -1,5 +1,6 @@
 import AvoVerif.Props.C17
 import AvoVerif.Props.C17Tables
+import AvoVerif.Props.C17Pipeline
 import AvoVerif.Props.C02
 #print axioms Avo.Determinism.get_perm
 #print axioms Avo.Determinism.update_perm
@@ -8,9 +9,21 @@ import AvoVerif.Props.C02
 #print axioms Avo.Determinism.ofKind_perm
 #print axioms Avo.Determinism.sortRegs_perm
 #print axioms Avo.Determinism.mostRestricted_perm
-#print axioms Avo.Determinism.mapRanges_expected
+#print axioms Avo.Determinism.mapIterTypes_known
+#print axioms Avo.Determinism.mapIterTypes_nonempty
+#print axioms Avo.Determinism.only_pass_and_reg_enumerate_maps
 #print axioms Avo.Live.liveness_order_irrelevant
 #print axioms Avo.Determinism.allocLoop_perm
 #print axioms Avo.Alloc.foldl_perm
 #print axioms Avo.Determinism.allocate_kinds_perm
 #print axioms Avo.Determinism.requiredISA_perm
+#print axioms Avo.Determinism.generation_deterministic
+#print axioms Avo.Determinism.pipelineE_eq
+#print axioms Avo.Determinism.livenessE_same
+#print axioms Avo.Determinism.edgesOfE_perm
+#print axioms Avo.Determinism.allocKindE_eq
+#print axioms Avo.Determinism.allocateE_eqv
+#print axioms Avo.Determinism.equals_perm
+#print axioms Avo.Determinism.update_flag_same
+#print axioms Avo.Determinism.acceptDet_sound
+#print axioms Avo.Determinism.acceptDet_complete
